@@ -38,8 +38,10 @@ def units(ctx):
             tgt = reach.gap_targeted_truths(cones.W_of(spec), reach.eps_of())
             if not ctx.thorough:
                 lat, tgt = lat[:5], tgt[:5]
-            for mu in lat + tgt:
-                us.append(("reach", PROPERTY, alg, spec, 2, 2, mu, 7, B))
+            for k, mu in enumerate(lat + tgt):
+                # two deviating rounds are ~10x dearer: thorough spends them on a slice (3 cones x every third truth)
+                b = B if (B == 1 or (spec in (("comp", 2), ("theta", 60), ("theta", 135)) and k % 3 == 0)) else 1
+                us.append(("reach", PROPERTY, alg, spec, 2, 2, mu, 7, b))
             k3 = reach.truths(3, 2, ctx.thorough, ctx.seed)
             if not ctx.thorough:
                 k3 = k3[ctx.seed % 2 :: 2][:2] if spec in (("comp", 2), ("theta", 135), ("theta", 60)) else []
